@@ -307,8 +307,8 @@ fn subscription_job(op: Op1, head: Src, len: usize, devs: u32) -> Job {
 
 pub fn plan(tier: Tier) -> Plan {
   let (len, devs, len0) = match tier {
-    Tier::Quick => (10, 2, 13),
-    Tier::Thorough => (12, 3, 16),
+    Tier::Quick => (11, 3, 15),
+    Tier::Thorough => (13, 4, 18),
   };
   let mut jobs = vec![];
   let moving = vec![
